@@ -170,4 +170,19 @@ CLAIMS = {
         'technique': 'Lean 4 decision-logic proof (case analysis; induction over item lists and histories) + quirk-switch model + '
                      'differential correspondence incl. a two-node end-to-end run',
     },
+    'C13': {
+        'text': 'Lean 4 theorems over an abstract hash function and abstract node/account decoders (so nothing is assumed about Keccak-256): '
+                'ValidateContent of the ideal model accepts an account-trie node, a storage-trie node or bytecode IF AND ONLY IF the named header is known, '
+                'the proof is a chain whose first node hashes to its state root and whose every next node hashes to the child reference reached by walking '
+                'the previous node along the key\'s path (inductive walk relation, proved equivalent to TraverseTrieNode in both directions), the path is used '
+                'up, and the final node / the proven leaf account\'s code hash equals the key\'s hash; Put stores exactly the final node / the code and only '
+                'when it hashes to the key; wrong root, broken link, wrong path, unused path, surplus nodes, missing (empty / dropped last) nodes, unknown header '
+                'are each rejected with an error and never a panic. Four decided witnesses show where the code as it is deviates (index panics, leaf value taken '
+                'for a child reference, child reference taken for the account, Put on an empty proof). The model is tied to the Go code on every run by exact '
+                'comparison of verdict and stored bytes on ~7.6k proof cases (every node of every generated trie as target x mutations, mainnet vectors, '
+                'hand-made chains) and ~4.5k decoder cases, all recomputed from raw bytes with a Lean RLP decoder and a Lean Keccak-256.',
+        'note': TB + 'ztyp SSZ decoding is represented by its limits only; go-ethereum rlp and hex-prefix decoding are re-modelled and compared; the header source is a '
+                'parameter (its honesty is C02). Soundness is relative to the hash function: the specification is hash equations, collisions are not excluded.',
+        'technique': 'Lean 4 proof (functional induction on the traversal, induction over the proof list, iff with an inductive chain specification) + quirk-switch model + differential correspondence',
+    },
 }
